@@ -140,7 +140,10 @@ def gen_set_op(rng, ts, k0, E):
     m = rng.randrange(E + 1) if rng.random() < 0.15 else rng.randrange(E)
     v = rng.randrange(len(VARS))
     check = rng.random() < 0.8
-    kind = rng.choice(["arr", "arr", "ts_sub", "ts_sub", "ts_all", "ts_contig", "ts_bad", "arr_bad", "ts_len"])
+    kind = rng.choice(["arr", "arr", "ts_sub", "ts_sub", "ts_all", "ts_contig", "ts_bad", "arr_bad", "ts_len", "arr_short"])
+    if kind == "arr_short":  # fewer values than the horizon, consistency check off: they still start at t0
+        return {"op": "set", "m": m, "v": v, "times": None, "values": gen_series(rng, rng.randint(0, len(hor))),
+                "check": False, "kind": kind}
     if kind == "arr":
         return {"op": "set", "m": m, "v": v, "times": None, "values": gen_series(rng, len(hor)), "check": check, "kind": kind}
     if kind == "arr_bad":
@@ -284,7 +287,7 @@ def stream_io(c, N):
             # set/get: alignment
             for o, r in zip(case["ops"], res):
                 if o["op"] != "set" or r == "raise":
-                    if o["op"] == "set" and o["kind"] in ("arr", "ts_sub", "ts_all", "ts_contig"):
+                    if o["op"] == "set" and o["kind"] in ("arr", "arr_short", "ts_sub", "ts_all", "ts_contig"):
                         c.fail("a consistent set_timeseries call is rejected", case, o)
                     continue
                 if o["kind"] in ("ts_sub", "ts_all", "ts_contig"):
@@ -294,8 +297,10 @@ def stream_io(c, N):
                     if not eqv(exp, r):
                         c.fail("set_timeseries: a value is not retrieved at its own stamp (NaN elsewhere)", case,
                                {"op": o, "got": r})
-                elif o["kind"] == "arr":
-                    exp = [NAN] * k0 + list(o["values"])
+                elif o["kind"] in ("arr", "arr_short") or (
+                        o["kind"] == "arr_bad" and not o["check"] and len(o["values"]) <= len(ts) - k0):
+                    # value k is retrieved at times()[k]; NaN before t0 and after the last given value
+                    exp = [NAN] * k0 + list(o["values"]) + [NAN] * (len(ts) - k0 - len(o["values"]))
                     if not eqv(exp, r):
                         c.fail("set_timeseries without stamps does not start at t0", case, {"op": o, "got": r})
                 elif o["check"] and o["kind"] in ("ts_bad", "ts_len", "arr_bad") and not (
